@@ -302,7 +302,62 @@ func checkC15(p *Prog, r *Report) {
 				}
 			}
 		}
-		r.add("R15.4", "rearm-on-flag|"+shortName(sender), p.pos(sender.Pos()), "the re-arm function is called when the one-minute flag is set", okG, "the one-minute warning does not re-arm the reload")
+		lostB := ""
+		if flagCell == nil && strip != nil && chk.Signature.Results().Len() > 0 {
+			// result form: the closure returns the one-minute verdict; every call's result
+			// must reach the test that guards the re-arm call on every path
+			var ex1 ssa.Value
+			for _, ref := range *strip.In.Value().Referrers() {
+				if ex, isEx := ref.(*ssa.Extract); isEx && ex.Index == 1 {
+					ex1 = ex
+				}
+			}
+			returnsVerdict := false
+			if ex1 != nil {
+				t := taintFrom(chk, []ssa.Value{ex1})
+				for _, ret := range returnsOf(chk) {
+					for _, rv := range ret.Results {
+						if rv == ex1 || t[rv] {
+							returnsVerdict = true
+						}
+					}
+				}
+			}
+			isArmCall := func(in ssa.Instruction) bool {
+				c, ok := in.(*ssa.Call)
+				return ok && c.Common().StaticCallee() != nil && reachesFn(c.Common().StaticCallee(), arm)
+			}
+			guardOK := func(i *ssa.If) bool {
+				b := i.Block()
+				for k := range b.Succs {
+					for _, bb := range sender.Blocks {
+						if bb == b.Succs[k] || edgeDominates(b, k, bb) {
+							for _, in := range bb.Instrs {
+								if isArmCall(in) {
+									return true
+								}
+							}
+						}
+					}
+				}
+				return false
+			}
+			nCalls := 0
+			if returnsVerdict {
+				for _, cs := range callsOf(sender) {
+					if cs.Static == chk && cs.In.Value() != nil {
+						nCalls++
+						if lost := verdictMustReach(p, cs.In, isArmCall, guardOK); lost != "" {
+							lostB = "the one-minute verdict of the call at " + p.ipos(cs.In) + " is lost before " + lost
+						}
+					}
+				}
+			}
+			okG = returnsVerdict && nCalls >= 1 && lostB == ""
+			r.add("R15.4", "rearm-flag-accumulates|"+shortName(chk), p.pos(chk.Pos()), "the one-minute verdict of every half of a joined command reaches the test that guards the re-arm", okG,
+				"a one-minute warning seen in one half of a two-command line does not re-arm the reload: "+lostB)
+		}
+		r.add("R15.4", "rearm-on-flag|"+shortName(sender), p.pos(sender.Pos()), "the re-arm function is called when the one-minute flag is set", okG, "the one-minute warning does not re-arm the reload "+lostB)
 	}
 
 	// ---- R15.6
